@@ -1,0 +1,20 @@
+//go:build verif
+
+package client
+
+// NewWithRoutingTable builds a client whose island routing table is filled from the given
+// servers' island ranges exactly as Connect fills it (later servers overwrite earlier ones),
+// without dialing anything. Used by the verification harness only.
+func NewWithRoutingTable(servers []*Server, allIslands uint64) Client {
+	c := &client{
+		serviceClients: make(map[uint64]*ServiceClient),
+		servers:        servers,
+		allIslands:     allIslands,
+	}
+	for _, server := range servers {
+		for island := server.FromIsland; island <= server.ToIsland; island++ {
+			c.serviceClients[island] = &ServiceClient{Host: server.Host}
+		}
+	}
+	return c
+}
